@@ -17,6 +17,38 @@ TemplatingMessageIOGateway :: TemplatingMessageIOGateway(uint32 maxLRUCacheSizeB
 static const uint32 CREATE_TEMPLATE_BIT  = (((uint32)1)<<31);  // if the high-bit is set in the length-word, that means the receiver should use the buffer's Message to create a template
 static const uint32 PAYLOAD_ENCODING_BIT = (((uint32)1)<<31);  // if the high-bit is set in the encoding-word, that means the receiver should interpret the buffer as payload-only and not as a flattened Message
 
+// Returns true iff (templateMsg) really describes the structure of (msg), i.e. iff every field of (templateMsg) is
+// present in (msg) with the same type and item-count (recursively for sub-Messages) and (msg) has no other flattenable fields.
+// TemplateHashCode64() is only a hash:  two differently-shaped Messages can have the same one
+// (e.g. {a:int32x3, b:int32x1} and {a:int32x1, b:int32x2}), and sending one of them as payload-only
+// data against the other one's template would silently alter it.
+static bool DoesTemplateDescribeMessage(const Message & templateMsg, const Message & msg)
+{
+   uint32 numFlattenableFieldsInMsg = 0;
+   for (MessageFieldNameIterator iter = msg.GetFieldNameIterator(); iter.HasData(); iter++)
+   {
+      const uint32 tc = iter.GetFieldType();
+      if ((tc != B_POINTER_TYPE)&&(tc != B_TAG_TYPE)) numFlattenableFieldsInMsg++;
+   }
+   if (numFlattenableFieldsInMsg != templateMsg.GetNumNames()) return false;
+
+   for (MessageFieldNameIterator iter = templateMsg.GetFieldNameIterator(); iter.HasData(); iter++)
+   {
+      const String & fn = iter.GetFieldName();
+      uint32 ttc = 0, tcount = 0, mtc = 0, mcount = 0;
+      if ((templateMsg.GetInfo(fn, &ttc, &tcount).IsError())||(msg.GetInfo(fn, &mtc, &mcount).IsError())||(ttc != mtc)||(tcount != mcount)) return false;
+      if (ttc == B_MESSAGE_TYPE)
+      {
+         for (uint32 i=0; i<tcount; i++)
+         {
+            ConstMessageRef subT, subM;
+            if ((templateMsg.FindMessage(fn, i, subT).IsError())||(msg.FindMessage(fn, i, subM).IsError())||(DoesTemplateDescribeMessage(*subT(), *subM()) == false)) return false;
+         }
+      }
+   }
+   return true;
+}
+
 status_t TemplatingMessageIOGateway :: GetBodySize(const uint8 * headerBuf, uint32 & retNumBytes) const
 {
    const uint32 bodySize = DefaultEndianConverter::Import<uint32>(&headerBuf[0*sizeof(uint32)]) & ~CREATE_TEMPLATE_BIT;
@@ -41,8 +73,15 @@ ByteBufferRef TemplatingMessageIOGateway :: FlattenHeaderAndMessage(const Messag
    if ((isMessageTrivial == false)&&(IsOkayToTemplatizeMessage(*msgRef())))
    {
       templateID     = msgRef()->TemplateHashCode64();
-      templateMsgRef = _outgoingTemplates.GetAndMoveToFront(templateID);
-      if (templateMsgRef == NULL)
+      templateMsgRef = _outgoingTemplates.Get(templateID);
+      if ((templateMsgRef)&&(DoesTemplateDescribeMessage(*templateMsgRef->GetItemPointer(), *msgRef()) == false))
+      {
+         // hash collision:  the cached template has the same hash but a different shape.  Send this Message in the plain
+         // format and leave the template caches (contents and LRU order) alone, exactly as the receiver will.
+         templateMsgRef = NULL;
+      }
+      else if (templateMsgRef) (void) _outgoingTemplates.MoveToFront(templateID);
+      else
       {
          // demand-allocate a template-Message for us to cache and use in the future
          // Note that I'm deliberately leaving (templateMsgRef) set to NULL here, though
